@@ -1,0 +1,141 @@
+//go:build verif
+
+package hashgraph
+
+import "github.com/mosaicnetworks/babble/src/peers"
+
+// Read-only accessors used by the external verification harness (/verif). They
+// are only compiled with the "verif" build tag and never change any state
+// beyond what the wrapped (existing) methods already do.
+
+// VerifRound returns the event's private round field (nil if not set).
+func (e *Event) VerifRound() *int { return e.round }
+
+// VerifLamportTimestamp returns the event's private lamportTimestamp field.
+func (e *Event) VerifLamportTimestamp() *int { return e.lamportTimestamp }
+
+// VerifRoundReceived returns the event's private roundReceived field.
+func (e *Event) VerifRoundReceived() *int { return e.roundReceived }
+
+// VerifTopologicalIndex returns the event's local insertion index.
+func (e *Event) VerifTopologicalIndex() int { return e.topologicalIndex }
+
+// VerifLastAncestors returns a copy of the event's lastAncestors coordinates.
+func (e *Event) VerifLastAncestors() CoordinatesMap {
+	if e.lastAncestors == nil {
+		return nil
+	}
+	return e.lastAncestors.Copy()
+}
+
+// VerifFirstDescendants returns a copy of the event's firstDescendants.
+func (e *Event) VerifFirstDescendants() CoordinatesMap {
+	if e.firstDescendants == nil {
+		return nil
+	}
+	return e.firstDescendants.Copy()
+}
+
+// VerifWireIDs returns the private wire fields of the event body.
+func (e *Event) VerifWireIDs() (creatorID, otherParentCreatorID uint32, selfParentIndex, otherParentIndex int) {
+	return e.Body.creatorID, e.Body.otherParentCreatorID, e.Body.selfParentIndex, e.Body.otherParentIndex
+}
+
+// VerifDecided returns the private decided flag of a RoundInfo.
+func (r *RoundInfo) VerifDecided() bool { return r.decided }
+
+// VerifFame returns (isWitness, fame) of an event in the round; fame is
+// "true", "false" or "undefined".
+func (r *RoundInfo) VerifFame(x string) (bool, string) {
+	e, ok := r.CreatedEvents[x]
+	if !ok {
+		return false, "absent"
+	}
+	return e.Witness, e.Famous.String()
+}
+
+// VerifRoundLowerBound returns the hashgraph's roundLowerBound.
+func (h *Hashgraph) VerifRoundLowerBound() *int { return h.roundLowerBound }
+
+// VerifTopologicalIndex returns the hashgraph's insertion counter.
+func (h *Hashgraph) VerifTopologicalIndex() int { return h.topologicalIndex }
+
+// VerifAncestor exposes the memoised ancestor predicate.
+func (h *Hashgraph) VerifAncestor(x, y string) (bool, error) { return h.ancestor(x, y) }
+
+// VerifSelfAncestor exposes the memoised selfAncestor predicate.
+func (h *Hashgraph) VerifSelfAncestor(x, y string) (bool, error) { return h.selfAncestor(x, y) }
+
+// VerifStronglySee exposes the memoised stronglySee predicate.
+func (h *Hashgraph) VerifStronglySee(x, y string, ps *peers.PeerSet) (bool, error) {
+	return h.stronglySee(x, y, ps)
+}
+
+// VerifRound exposes the memoised round function.
+func (h *Hashgraph) VerifRound(x string) (int, error) { return h.round(x) }
+
+// VerifWitness exposes the memoised witness predicate.
+func (h *Hashgraph) VerifWitness(x string) (bool, error) { return h.witness(x) }
+
+// VerifLamportTimestamp exposes the memoised lamportTimestamp function.
+func (h *Hashgraph) VerifLamportTimestamp(x string) (int, error) { return h.lamportTimestamp(x) }
+
+// VerifRoundReceived exposes the roundReceived function.
+func (h *Hashgraph) VerifRoundReceived(x string) (int, error) { return h.roundReceived(x) }
+
+// VerifPendingRounds returns (index, decided) for every pending round in order.
+func (h *Hashgraph) VerifPendingRounds() [][2]int {
+	res := [][2]int{}
+	for _, pr := range h.PendingRounds.GetOrderedPendingRounds() {
+		d := 0
+		if pr.Decided {
+			d = 1
+		}
+		res = append(res, [2]int{pr.Index, d})
+	}
+	return res
+}
+
+// DB-level readers of the BadgerStore (bypassing the in-memory cache).
+
+// VerifDBGetEvent reads an event directly from the database.
+func (s *BadgerStore) VerifDBGetEvent(key string) (*Event, error) { return s.dbGetEvent(key) }
+
+// VerifDBGetBlock reads a block directly from the database.
+func (s *BadgerStore) VerifDBGetBlock(index int) (*Block, error) { return s.dbGetBlock(index) }
+
+// VerifDBGetFrame reads a frame directly from the database.
+func (s *BadgerStore) VerifDBGetFrame(index int) (*Frame, error) { return s.dbGetFrame(index) }
+
+// VerifDBGetRound reads a round directly from the database.
+func (s *BadgerStore) VerifDBGetRound(index int) (*RoundInfo, error) { return s.dbGetRound(index) }
+
+// VerifDBGetPeerSet reads a peer-set directly from the database.
+func (s *BadgerStore) VerifDBGetPeerSet(round int) (*peers.PeerSet, error) {
+	return s.dbGetPeerSet(round)
+}
+
+// VerifDBGetRoot reads a root directly from the database.
+func (s *BadgerStore) VerifDBGetRoot(participant string) (*Root, error) {
+	return s.dbGetRoot(participant)
+}
+
+// VerifDBGetRepertoire reads the repertoire directly from the database.
+func (s *BadgerStore) VerifDBGetRepertoire() (map[string]*peers.Peer, error) {
+	return s.dbGetRepertoire()
+}
+
+// VerifDBTopologicalEvents reads events in topological order from the database.
+func (s *BadgerStore) VerifDBTopologicalEvents(start, count int) ([]*Event, error) {
+	return s.dbTopologicalEvents(start, count)
+}
+
+// VerifDBParticipantEvents reads a participant's events from the database.
+func (s *BadgerStore) VerifDBParticipantEvents(participant string, skip int) ([]string, error) {
+	return s.dbParticipantEvents(participant, skip)
+}
+
+// VerifDBParticipantEvent reads one participant event from the database.
+func (s *BadgerStore) VerifDBParticipantEvent(participant string, index int) (string, error) {
+	return s.dbParticipantEvent(participant, index)
+}
